@@ -12,6 +12,7 @@
   is answered 431 or decoded depending on the read sizes) and this module no longer checks.
 -/
 import NngModel.Proofs.HttpConn
+import NngModel.Generated.C16H
 namespace Nng.C16Http
 open Nng Nng.HttpConn
 open Nng.HttpSpec (decode St Params decodeReq isBadCtl endsWithCR stepByte)
